@@ -335,7 +335,18 @@ class SignEditVerify(Family):
                 d4 = SH.legacy(redeem2, m, idx, ht)[0]
                 fs1 = bytes(EC.der_encode(*EC.low_s(*EC.sign_with_nonce(foreign, d4, 777)))) + bytes([ht])
                 subs.append(('redeem script and signature substituted by a foreign key', b'\x00' + push(fs1) + push(redeem2), False))
+        refcs = L.make_checksig(m, idx)
         for sname, script2, expect in subs:
+            # first without SCRIPT_VERIFY_P2SH (a P2SH output then only compares the script hash), judged by the reference
+            # interpreter; then with it: the first verdict must not colour the second
+            try:
+                want0 = L.run_ref_verify(script2, spk, NONE, refcs)
+            except L.OutOfScope:
+                want0 = None
+            r0 = verify(script2, spk, m, idx, NONE)
+            n += 1
+            if want0 is not None and (r0[0] == 'ok') != (want0[0] == 'ok'):
+                raise Viol('%s, no flags: input %s (%s)' % (sname, 'verifies' if r0[0] == 'ok' else 'is rejected (%s)' % r0[1], what), want0[0], r0[0])
             r = verify(script2, spk, m, idx, P2SHF)
             n += 1
             if (r[0] == 'ok') != expect:
@@ -461,5 +472,92 @@ class StaleKeyHistories(Family):
         return 'ok', True
 
 
+def sync_inplace(tx, m):
+    """make the fields of the CMutableTransaction equal to the model by assignments on the SAME objects (lists resized in
+    place, sub-objects kept where they exist)"""
+    from bitcoin.core import CMutableTxIn, CMutableTxOut, CMutableOutPoint
+    from bitcoin.core.script import CScript
+    tx.nVersion = m['version']
+    tx.nLockTime = m['locktime']
+    while len(tx.vin) > len(m['vin']):
+        tx.vin.pop()
+    while len(tx.vin) < len(m['vin']):
+        tx.vin.append(CMutableTxIn(CMutableOutPoint(b'\x00' * 32, 0)))
+    for i, mi in enumerate(m['vin']):
+        tx.vin[i].prevout.hash = mi['hash']
+        tx.vin[i].prevout.n = mi['n']
+        tx.vin[i].scriptSig = CScript(mi['script'])
+        tx.vin[i].nSequence = mi['seq']
+    while len(tx.vout) > len(m['vout']):
+        tx.vout.pop()
+    while len(tx.vout) < len(m['vout']):
+        tx.vout.append(CMutableTxOut(0, CScript()))
+    for j, mo in enumerate(m['vout']):
+        tx.vout[j].nValue = mo['value']
+        tx.vout[j].scriptPubKey = CScript(mo['script'])
+
+
+class InPlaceHistories(Family):
+    """verify . edit in place . verify . undo in place . verify on ONE CMutableTransaction object: the signed input
+    verifies; after every single edit of the catalogue made by assignments on the same object it verifies iff the hash
+    type does not commit to the edited part; after the edit is undone on the same object it verifies again.  Flags
+    alternate between {} and {P2SH} from call to call."""
+    name = 'verify_edit_verify_on_one_object'
+    engine = 'E2'
+    nontrivial_rule = 'every verification'
+    HTS = [0x01, 0x02, 0x03, 0x81, 0x82, 0x83, 0x41]
+
+    def shards(self, tier):
+        return [(t, sh) for t in range(len(TEMPLATES)) for sh in (1, 2)]
+
+    def cases(self, shard, tier):
+        t, sh = shard
+        for ht in self.HTS:
+            for idx in range(SHAPES[sh][0]):
+                yield (t, sh, ht, idx)
+
+    def check(self, case):
+        t, sh, ht, idx = case
+        name = TEMPLATES[t]
+        spk, subscript, signers, mk_sig = template(name)
+        nin, nout = SHAPES[sh]
+        m = C.default_tx(nin, nout)
+        tx = C.lib_tx(m, mutable=True)
+        digest, sigs, const1, owned = lib_sign(tx, subscript, idx, ht, signers, 0, name.endswith('_u'))
+        want = SH.legacy(subscript, m, idx, ht)
+        sig_script = mk_sig(sigs)
+        what = '%s hashtype=%#04x shape=%d/%d idx=%d' % (name, ht, nin, nout, idx)
+        p2sh = name.startswith('p2sh')
+        n = 0
+        flip = [0]
+
+        def ver(i):
+            flip[0] ^= 1
+            return L.run_lib_verify(sig_script, spk, P2SHF if (flip[0] or p2sh) else NONE, tx=tx, idx=i)
+        r = ver(idx)
+        if r[0] != 'ok':
+            raise Viol('signed input on a mutable transaction is rejected (%s)' % what, 'accept', r)
+        for ename, fn, _cls in field_edits(m, idx) + [(a, b, None) for a, b in structural_edits(m, idx)]:
+            if ename == 'witness':
+                continue
+            m2, idx2 = fn(copy.deepcopy(m))
+            if not m2['vin']:
+                continue
+            expect = SH.legacy(subscript, m2, idx2, ht) == want
+            sync_inplace(tx, m2)
+            r = ver(idx2)
+            n += 1
+            if (r[0] == 'ok') != expect:
+                raise Viol('after in-place edit %s of the same transaction object the signed input %s, but the hash type %s that part (%s)' % (
+                    ename, 'still verifies' if r[0] == 'ok' else 'no longer verifies (%s)' % r[1], 'commits to' if not expect else 'does not commit to', what),
+                    'accept' if expect else 'reject', r[0])
+            sync_inplace(tx, m)
+            r = ver(idx)
+            n += 1
+            if r[0] != 'ok':
+                raise Viol('after undoing in-place edit %s on the same transaction object the signed input is rejected (%s)' % (ename, what), 'accept', r)
+        return 'ok', True, n
+
+
 def families(tier):
-    return [SignEditVerify(), VerifySignatureApi(), StaleKeyHistories()]
+    return [SignEditVerify(), VerifySignatureApi(), StaleKeyHistories(), InPlaceHistories()]
